@@ -19,7 +19,7 @@ ASSUMPTIONS = [
     "harvest event of a season = first in-season day on which the state reports maturity or death, or whose next date is the model's latest harvest date",
     "fresh yield is compared only for crops with a defined (positive) dry-matter content",
 ]
-BUDGET = {"quick": 280, "thorough": 5000}
+BUDGET = {"quick": 420, "thorough": 5000}
 LOWWPY = ["Cotton", "DryBean", "Soybean", "Sunflower", "Quinoa", "CottonGDD", "SoybeanGDD"]
 PROFILE = gen.profile(crops=LOWWPY * 2 + list(gen.CROPS), seasons=(1, 4), max_days=1500, p_cap=0.45, p_override=0.4, switches=True,
                       irr=((0, 2), (1, 3), (2, 2), (3, 2), (4, 4), (5, 2)), dry_spells=(0, 2),
